@@ -74,4 +74,30 @@ CLAIMS['C12'] = {
     'note': _NOTE,
 }
 
+CLAIMS['C06'] = {
+    'text': 'Task lifecycle: writers of the result field and the `_result is None` guard of '
+            'every write in cancel/__close__; every terminal path of the payload wrapper '
+            '(success, failure, each signal class at each suspension, pre-run exit) stores '
+            'the result at most once and sets done exactly once, atomically and afterwards; '
+            'Task.__await__ returns/raises the stored result; cancel distinguishes '
+            'finished/created/running with the right registration order, target, token '
+            'plumbing; only genuine failures report failed=True; the not-started predicate '
+            'is sound for this interpreter (compile+dis of a sample coroutine, nothing run). '
+            'What user payloads do with a CancelTask they catch is not decided.',
+    'note': _NOTE,
+}
+CLAIMS['C04'] = {
+    'text': 'Containment: every way out of Scope.__aexit__ (3 receivers x pending exception '
+            'kinds x every signal class at every suspension site of the graceful branch) '
+            'passes _close_scope exactly once, graceful exits await the children first, '
+            '_close_scope orders interrupts-off/children/volatile; _await_children leaves only '
+            'after testing the live list empty after its last suspension; closing loops '
+            'iterate copies; do() registers/refuses correctly and __child_finished__ agrees '
+            'on the list; the wrapper reports exactly once; Task.__close__ handles started and '
+            'unstarted tasks; forced-close discipline over all 75 suspension-capable '
+            'function/receiver pairs. That user payloads do not swallow GeneratorExit is '
+            'assumed.',
+    'note': _NOTE,
+}
+
 NOT_APPLICABLE = {}
